@@ -20,8 +20,8 @@ def main():
         outs = [[(None, None)], [(['x'], ['y', 'attr'])]]
     else:
         shapes = [dict(nl=2, nr=2, n_jobs=[1, 2, 3]), dict(nl=3, nr=2, n_jobs=[1]),
-                  dict(nl=2, nr=3, n_jobs=[1, 2])]
-        outs = [[(None, None), (['x'], None), (None, ['y']), (['x'], ['y', 'attr'])]]
+                  dict(nl=2, nr=3, n_jobs=[2])]
+        outs = [[(None, None), (['x'], ['y', 'attr'])]]
     ck.bounds = dict(tables=[(s['nl'], s['nr']) for s in shapes], tokens_per_cell=1,
                      missing='every distribution of missing flags (symbolic)',
                      flags='allow_missing, out_sim_score, n_jobs, output attributes')
